@@ -75,7 +75,7 @@ func errCode(err error) int {
 		return 1
 	case mangos.ErrAddrInUse:
 		return 10
-	case mangos.ErrConnRefused:
+	case mangos.ErrConnRefused, mangos.ErrBadProto, mangos.ErrBadHeader, mangos.ErrBadVersion:
 		return 11
 	}
 	return 99
@@ -390,7 +390,9 @@ func (g *gen) apply(o op) {
 			g.tpipes[p] = td.Resolve(nil, p)
 			g.finish(fmt.Sprintf("KResolve %d DOk %d", o.a, p), false)
 		} else {
-			td.Resolve(vt.ErrRefused, 0)
+			// whatever the reason of the failure -- refused, a peer of another protocol, a garbled header -- the attempt has
+			// failed and the dialer goes on (for the model all are "refused")
+			td.Resolve([]error{vt.ErrRefused, vt.ErrRefused, mangos.ErrBadProto, mangos.ErrBadHeader, mangos.ErrBadVersion}[g.r.Intn(5)], 0)
 			g.finish(fmt.Sprintf("KResolve %d DRefused 0", o.a), false)
 		}
 	case "closedialer":
